@@ -54,6 +54,7 @@ class Translator:
         self.call_hook = call_hook
         self.all_positive = all_positive
         self.attr_of_bound = False      # x.attr for an env-bound local x -> attr_<attr>(value of x)
+        self.structured = False         # every attribute chain a.b.c -> attr_c(attr_b(a)) (except on self / numpy)
         self._syms: Dict[str, sp.Symbol] = {}
 
     # ------------------------------------------------------------- symbols
@@ -99,6 +100,8 @@ class Translator:
         if d in ("np.inf", "numpy.inf", "math.inf"):
             return sp.oo
         if d is not None:
+            if self.structured and d not in self.env and d.split(".")[0] not in ("np", "numpy", "math", "sp", "scipy", "self"):
+                return sp.Function("attr_" + n.attr)(self.tr(n.value))
             if d not in self.env and isinstance(n.value, ast.Name) and n.value.id in self.env and self.attr_of_bound:
                 return sp.Function("attr_" + n.attr)(self.env[n.value.id])
             return self.sym(d)
